@@ -181,6 +181,34 @@ Proof.
     change (dec_sized 32 0 dec_hash s) with (@ret (list bytes) [] s). unfold ret at 1. unfold bind. rewrite IH. reflexivity.
 Qed.
 
+(* the element types of the remaining capped vectors: fixed 32-byte fields plus (for the bulletproofs) two Vec<Key> *)
+Ltac consume_fields :=
+  repeat match goal with
+         | Hx : dec_hash _ = (Ok _, _) |- _ => apply consumes_hash in Hx
+         | Hx : dec_key64 _ = (Ok _, _) |- _ => apply (consumes_read_n 2048) in Hx
+         | Hx : dec_varint _ = (Ok _, _) |- _ => apply consumes_varint in Hx
+         | Hx : dec_u32 _ = (Ok _, _) |- _ =>
+             apply dmap_ok in Hx; destruct Hx as (? & Hx & _); apply (consumes_read_n 4) in Hx
+         | Hx : dec_vec _ dec_hash _ = (Ok _, _) |- _ => apply (vec_consumes dec_hash 32 _ consumes_hash) in Hx
+         end.
+
+Lemma consumes_bulletproof : consumes dec_bulletproof 290.
+Proof. intros s a r H. unfold dec_bulletproof in H. dec_inv. consume_fields. lia. Qed.
+
+Lemma consumes_bpplus : consumes dec_bpplus 194.
+Proof. intros s a r H. unfold dec_bpplus in H. dec_inv. consume_fields. lia. Qed.
+
+Lemma consumes_borosig : consumes dec_borosig 4128.
+Proof. intros s a r H. unfold dec_borosig in H. dec_inv. consume_fields. lia. Qed.
+
+Lemma consumes_rangesig : consumes dec_rangesig (4128 + 2048).
+Proof.
+  intros s a r H. unfold dec_rangesig in H. dec_inv. apply consumes_borosig in Hd. consume_fields. lia.
+Qed.
+
+Lemma consumes_header : consumes dec_header 39.
+Proof. intros s a r H. unfold dec_header in H. dec_inv. consume_fields. lia. Qed.
+
 (* ---- (c) allocation requests ------------------------------------------------------------------------------------ *)
 (* Vec::with_capacity(len) in `Vec<T>` / `Box<[T]>` / consensus_decode_sized_vec: requested only after the cap test,
    size_of::<T>() * len bytes *)
